@@ -83,6 +83,12 @@ CONFIGS = {
                drop=['-maes', '-mssse3', '-mavx2'], desc='AArch64 cross parse (JitCompilerA64)'),
     'K3': dict(extra=['--target=riscv64-linux-gnu', '-march=rv64gc'] + CROSS_SYS,
                drop=['-maes', '-mssse3', '-mavx2'], desc='RV64GC cross parse (JitCompilerRV64, scalar)'),
+    'K4': dict(extra=['-march=x86-64-v3', '-maes'], drop=[], desc='x86-64 with SSE4.1/AVX2/BMI2 enabled at compile time (the documented -DARCH=native build on a current CPU); only the units that use the vector wrappers'),
+}
+
+# configurations that are analysed for a subset of the units only
+ONLY_UNITS = {
+    'K4': ['src/soft_aes.cpp', 'src/aes_hash.cpp', 'src/instructions_portable.cpp'],
 }
 
 # extra units not in the host build that exist only for a target
@@ -238,6 +244,11 @@ class Ctx:
     # ------------------------------------------------------------------ AST facts
     def ast_units(self, config='K0'):
         units = [u['rel'] for u in self.compdb() if u['lang'] != 'asm']
+        if config in ONLY_UNITS:
+            missing = [u for u in ONLY_UNITS[config] if u not in units]
+            if missing:
+                raise AnalysisBroken('units of configuration %s not in the build: %s' % (config, missing))
+            return list(ONLY_UNITS[config])
         if config in EXTRA_UNITS:
             units = [u for u in units if not u.endswith('jit_compiler_x86.cpp')] + EXTRA_UNITS[config]
         if config != 'K0':
